@@ -39,6 +39,11 @@ def cases(tier, rng):
     for n in (0, 1, 5):
         ps.append({"x": "tw", "n": n, "ncls": "int", "wells": {"k": "l", "x": []}, "present": "list", "len": 0})
         ps.append({"x": "tw", "n": n, "ncls": "int", "wells": {"k": "l", "x": []}, "present": "ndarray", "len": 0})
+        ps.append({"x": "tw", "n": n, "ncls": "int", "wells": {"k": "l", "x": []}, "present": "tuple", "len": 0})
+        # 2-D arrays without elements although their first axis is not empty (trough.wells[:, 1:] of a one-column trough)
+        for rows in (1, 3, 8):
+            for present in ("ndarray", "fortran", "list"):
+                ps.append({"x": "tw", "n": n, "ncls": "int", "wells": {"k": "m", "x": [[] for _ in range(rows)]}, "present": present, "len": 0})
     return ps
 
 
